@@ -12,3 +12,6 @@ import Plonk.Props.C02
 #print axioms Plonk.Props.C02.forged_evaluation_rejected_agm
 #print axioms Plonk.Props.C02.soundness_algebraic
 #print axioms Plonk.Props.C02.soundness_bad_sets
+#print axioms Plonk.Props.C02.numerator_degree_bound
+#print axioms Plonk.Props.C02.soundness_witness
+#print axioms Plonk.Props.C02.verifier_identity_is_quotient_identity
